@@ -181,9 +181,10 @@ func joinCase(r *lib.Rng, cf *lib.CaseFile) {
 	name := []string{"StreamJoin", "OuterJoin left", "OuterJoin right", "OuterJoin full"}[joinKind]
 	js := map[string]interface{}{"operator": name, "left": c18kit.EventsJSON(left), "right": c18kit.EventsJSON(right),
 		"schedule": schedString(sched), "kind": kind, "output": c18kit.EventsJSON(out), "note": note}
-	idx := cf.Add(fmt.Sprintf("(SInputs [%s; %s], [], %d, %s)", c18kit.CoqEvents(left), c18kit.CoqEvents(right), kind, c18kit.CoqEvents(out)),
-		js, nwm >= 1 && nrec >= 2)
 	cls := joinClass(joinKind, left, right)
+	tag := map[string]int{"": 0, classZeroTime: 1, classPaddedRow: 2}[cls]
+	idx := cf.Add(fmt.Sprintf("(SInputs (OpJoin %d) %d [%s; %s], [], %d, %s)", joinKind, tag, c18kit.CoqEvents(left), c18kit.CoqEvents(right), kind, c18kit.CoqEvents(out)),
+		js, nwm >= 1 && nrec >= 2)
 	if cls != "" {
 		cf.SetClass(idx, cls)
 		cf.Count("class_" + cls)
@@ -213,7 +214,7 @@ func groupByCase(r *lib.Rng, cf *lib.CaseFile) {
 	script := base
 	keyCols, valCol, timeKey := []int{0}, 1, -1
 	var lastWM time.Time
-	inClass := false
+	inClass, firesAtEnd := false, false
 	if timeKeyed {
 		// rows [k, window_end, v]: the time key is the end of the 3 ns window the record's event time falls in
 		keyCols, valCol, timeKey = []int{0, 1}, 2, 1
@@ -231,7 +232,6 @@ func groupByCase(r *lib.Rng, cf *lib.CaseFile) {
 				lastWM = e.WM
 			}
 		}
-		firesAtEnd := false
 		for _, t := range trigs {
 			if t.Kind != 1 {
 				firesAtEnd = true
@@ -253,7 +253,12 @@ func groupByCase(r *lib.Rng, cf *lib.CaseFile) {
 	}
 	js := map[string]interface{}{"operator": "CustomTriggerGroupBy", "time_keyed": timeKeyed, "triggers": names,
 		"input": c18kit.EventsJSON(script), "kind": kind, "output": c18kit.EventsJSON(out)}
-	idx := cf.Add(fmt.Sprintf("(SInputs [%s], [], %d, %s)", c18kit.CoqEvents(script), kind, c18kit.CoqEvents(out)), js, nwm >= 1 && nrec >= 3)
+	tag := 0
+	if inClass {
+		tag = 3
+	}
+	idx := cf.Add(fmt.Sprintf("(SInputs (OpGroupBy %s %s) %d [%s], [], %d, %s)", lib.CoqBool(timeKeyed), lib.CoqBool(firesAtEnd), tag, c18kit.CoqEvents(script), kind, c18kit.CoqEvents(out)),
+		js, nwm >= 1 && nrec >= 3)
 	if inClass {
 		cf.SetClass(idx, classEOSKey)
 		cf.Count("class_" + classEOSKey)
